@@ -80,19 +80,25 @@ Definition tmap_grow (t : tmap) : tmap :=
     mk_tmap (rate t) a (a * N.to_nat (SIZEOF_utc_summary_entry / TMAP_CELL_BYTES))%nat (entries t)
   else t.
 
+(* the part of jls_tmap_add after the growth, on the entry list: compares with the last
+   entry (one pass to the end of the list) *)
+Fixpoint add_last (es : list (Z * Z)) (s u : Z) : list (Z * Z) * Z :=
+  match es with
+  | [] => ([(s, u)], 0)
+  | e :: r =>
+      match r with
+      | [] =>
+          if s =? fst e then ([(s, u)], 0)                      (* --entries_length; overwrite *)
+          else if s <=? fst e then (es, Z.of_N JLS_ERROR_PARAMETER_INVALID)   (* not increasing: ignored *)
+          else ([e; (s, u)], 0)
+      | _ :: _ => let (r', rc) := add_last r s u in (e :: r', rc)
+      end
+  end.
+
 Definition tmap_add (t : tmap) (s u : Z) : tmap * Z :=
   let t1 := tmap_grow t in
-  let es := entries t1 in
-  match rev es with
-  | [] => (mk_tmap (rate t1) (alloc t1) (phys t1) [(s, u)], 0)
-  | (sl, _) :: _ =>
-      if s =? sl then                               (* --entries_length; overwrite *)
-        (mk_tmap (rate t1) (alloc t1) (phys t1) (removelast es ++ [(s, u)]), 0)
-      else if s <=? sl then                         (* not increasing: ignored *)
-        (t1, Z.of_N JLS_ERROR_PARAMETER_INVALID)
-      else
-        (mk_tmap (rate t1) (alloc t1) (phys t1) (es ++ [(s, u)]), 0)
-  end.
+  let (es, rc) := add_last (entries t1) s u in
+  (mk_tmap (rate t1) (alloc t1) (phys t1) es, rc).
 
 (* ---- memory read x[i] ---- *)
 Definition rd (junk : Z) (ph : nat) (xs : list Z) (i : nat) : res Z :=
